@@ -13,7 +13,7 @@ ENV = dict(os.environ, GOFLAGS="-mod=mod", GOPROXY="off", GOSUMDB="off", GOWORK=
 def sh(cmd, cwd=None, env=None):
     return subprocess.run(cmd, shell=True, cwd=cwd, capture_output=True, text=True, env=env)
 def keys(prop, repo):
-    r = sh(f"{V}/bin/risorcheck -sub -property {prop} -tier quick -repo {repo} -verif {V}")
+    r = sh(f"{os.environ.get('RISORCHECK', V + '/bin/risorcheck')} -sub -property {prop} -tier quick -repo {repo} -verif {V}")
     try: out = json.loads(r.stdout)
     except Exception: return None, ["checker output unreadable: " + r.stderr[-200:]]
     ks = {o.get("Key", o.get("key")) for o in out.get("Obs") or [] if not o.get("ok", o.get("OK")) and not o.get("Known", o.get("known"))}
